@@ -1,0 +1,54 @@
+//go:build verif
+
+// Contracts for the epoch key generator, checked by /verif/govc (see /verif/DESIGN.md). Comments only.
+package epochkg
+
+// Representation invariant of EpochKG (C01): pending share lists are non-empty, strictly below the
+// threshold, hold non-nil shares of distinct senders; derived keys are non-nil.
+//@ pred kgBase(kg) := kg != nil && kg.SecretShares != nil && kg.SecretKeys != nil && kg.Threshold >= 1 && kg.Threshold <= 1048576 && (forall i :: 0 <= i && i < len(kg.PublicKeyShares) ==> kg.PublicKeyShares[i] != nil)
+//@ pred kgKeysNonNil(kg) := forall k Str :: has(kg.SecretKeys, k) ==> kg.SecretKeys[k] != nil
+//@ pred kgSharesNonNil(kg) := forall k Str, i :: has(kg.SecretShares, k) && 0 <= i && i < len(kg.SecretShares[k]) ==> kg.SecretShares[k][i] != nil
+//@ pred kgBelowThreshold(kg) := forall k Str :: has(kg.SecretShares, k) ==> (len(kg.SecretShares[k]) >= 1 && len(kg.SecretShares[k]) < kg.Threshold)
+//@ pred wfKG(kg) := kgBase(kg) && kgKeysNonNil(kg) && kgSharesNonNil(kg) && kgBelowThreshold(kg)
+//@
+//@ func NewEpochKG
+//@   requires puredkgResult != nil && puredkgResult.Threshold >= 1 && puredkgResult.Threshold <= 1048576 && (forall i :: 0 <= i && i < len(puredkgResult.PublicKeyShares) ==> puredkgResult.PublicKeyShares[i] != nil)
+//@   ensures ret0 != nil && fresh(ret0) && wfKG(ret0)
+//@   ensures ret0.Threshold == puredkgResult.Threshold && len(ret0.PublicKeyShares) == len(puredkgResult.PublicKeyShares)
+//@   ensures forall i :: 0 <= i && i < len(puredkgResult.PublicKeyShares) ==> ret0.PublicKeyShares[i] == puredkgResult.PublicKeyShares[i]
+//@
+//@ pred idKey(share) := hexOf(content(share.IdentityPreimage))
+//@ pred shareValid(kg, share) := verShare(shareVal(share.Share), kg.PublicKeyShares[share.Sender], h1(content(share.IdentityPreimage)))
+//@
+//@ pred sharesLenOr0(kg, k) := ite(has(kg.SecretShares, k), len(kg.SecretShares[k]), 0)
+//@
+//@ // addEpochSecretKeyShare: caller has verified the share. A duplicate sender changes nothing; otherwise the
+//@ // share is appended, and exactly when that makes Threshold shares the key is derived and the pending
+//@ // list removed.
+//@ func (*EpochKG).addEpochSecretKeyShare
+//@   requires wfKG(epochkg) && share != nil && share.Share != nil
+//@   assigns mapof(map[string][]*epochkg.EpochSecretKeyShare), mapof(map[string]*shcrypto.EpochSecretKey)
+//@   ensures kgBase(epochkg)
+//@   ensures kgKeysNonNil(epochkg)
+//@   ensures kgSharesNonNil(epochkg)
+//@   ensures kgBelowThreshold(epochkg)
+//@   ensures forall k Str :: (has(epochkg.SecretKeys, k) && !old(has(epochkg.SecretKeys, k))) ==> (k == idKey(share) && old(sharesLenOr0(epochkg, k)) + 1 == epochkg.Threshold)
+//@   ensures forall k Str :: old(has(epochkg.SecretKeys, k)) && k != idKey(share) ==> (has(epochkg.SecretKeys, k) && epochkg.SecretKeys[k] == old(epochkg.SecretKeys[k]))
+//@   ensures forall k Str :: k != idKey(share) ==> (has(epochkg.SecretShares, k) == old(has(epochkg.SecretShares, k)) && len(epochkg.SecretShares[k]) == old(len(epochkg.SecretShares[k])))
+//@   ensures ret0 != nil ==> (forall k Str :: has(epochkg.SecretKeys, k) == old(has(epochkg.SecretKeys, k)) && has(epochkg.SecretShares, k) == old(has(epochkg.SecretShares, k)) && len(epochkg.SecretShares[k]) == old(len(epochkg.SecretShares[k])))
+//@   ensures ret0 == nil ==> sharesLenOr0(epochkg, idKey(share)) == ite(old(sharesLenOr0(epochkg, idKey(share))) + 1 == epochkg.Threshold, 0, old(sharesLenOr0(epochkg, idKey(share))) + 1)
+//@
+//@ // C01, per call and for every prior state satisfying the invariant (hence for every arrival order):
+//@ // a key appears only in the step where a valid share brings the count of distinct valid shares to
+//@ // exactly the threshold; an invalid share changes nothing.
+//@ func (*EpochKG).HandleEpochSecretKeyShare
+//@   requires wfKG(epochkg) && share != nil && share.Share != nil && share.Sender < len(epochkg.PublicKeyShares)
+//@   assigns mapof(map[string][]*epochkg.EpochSecretKeyShare), mapof(map[string]*shcrypto.EpochSecretKey)
+//@   ensures kgBase(epochkg)
+//@   ensures kgKeysNonNil(epochkg)
+//@   ensures kgSharesNonNil(epochkg)
+//@   ensures kgBelowThreshold(epochkg)
+//@   ensures (!old(has(epochkg.SecretKeys, idKey(share))) && !shareValid(epochkg, share)) ==> ret0 != nil
+//@   ensures (old(has(epochkg.SecretKeys, idKey(share))) || !shareValid(epochkg, share)) ==> (forall k Str :: has(epochkg.SecretKeys, k) == old(has(epochkg.SecretKeys, k)) && has(epochkg.SecretShares, k) == old(has(epochkg.SecretShares, k)) && len(epochkg.SecretShares[k]) == old(len(epochkg.SecretShares[k])))
+//@   ensures forall k Str :: (has(epochkg.SecretKeys, k) && !old(has(epochkg.SecretKeys, k))) ==> (k == idKey(share) && shareValid(epochkg, share) && old(sharesLenOr0(epochkg, k)) + 1 == epochkg.Threshold)
+//@   ensures forall k Str :: k != idKey(share) ==> (has(epochkg.SecretShares, k) == old(has(epochkg.SecretShares, k)) && len(epochkg.SecretShares[k]) == old(len(epochkg.SecretShares[k])))
